@@ -171,9 +171,10 @@ func runC15(c *Ctx, w *World, r *Report) {
 							for atom, coef := range D.T {
 								if cl, ok := asCall(fa.AtomValue(atom), "builtin len"); ok {
 									if _, f, ok := asFieldLoad(cl.Common().Args[0]); ok && f == "Words" {
-										var bd Bounds
-										applyRel(&bd, D.K, op, "")
-										if coef == 1 && bd.HasLo && bd.Lo >= 1 {
+										// len > 0, len >= 1, or len != 0 (a length is never negative)
+										bd := fa.boundsFrom([]Cond{cd}, linAtom(atom))
+										_ = op
+										if (coef == 1 || coef == -1) && bd.HasLo && bd.Lo >= 1 {
 											gLen = true
 											recognised = true
 										}
